@@ -282,4 +282,19 @@ PROPS = {
                            "free_running_executions": 100}},
         "assumptions": ["each thread holds at most one transaction", "deadlock = every live worker in a futex wait with no event for 20 ms (baton) / 300 ms (free running)"],
     },
+    "C13": {
+        "level": "exploration",
+        "rule": "cases = runs of 2 or 3 worker processes opening the same path (not yet created, or existing). Each worker records CLOCK_MONOTONIC "
+                "timestamps of 'open returned' and 'about to close' (written before the handle is dropped, so correct locking implies disjoint intervals), "
+                "the markers it sees, commits its own marker and runs DB::check. Orderings are FORCED with the LD_PRELOAD shim's gates: the first opener "
+                "is held at every libc boundary of its open (after open64, before/after the initialising write, before/after fsync, before mmap) until "
+                "the second (and third) opener's open64 has returned, and the second opener is held after its open64 until the first one maps the file; "
+                "plus seeded start offsets (0-3 ms) and hold times (0-5 ms). Oracle: hold intervals pairwise disjoint; the k-th opener sees exactly the "
+                "markers of the k-1 earlier ones; no opener errors, panics, dies or hangs (watchdog => inconclusive). "
+                "non-trivial = run with a forced ordering or one in which an opener demonstrably waited for another.",
+        "run": generic(thorough_profiles=(), pre=build_shim, extra_sets=("shim=" + SHIM,), nshards=8),
+        "floors": {"any": {"runs_with_forced_ordering": 12, "runs_on_file_not_yet_created": 15, "runs_on_existing_file": 10, "runs_with_3_processes": 5,
+                           "runs_in_which_an_opener_had_to_wait_for_another": 10}},
+        "assumptions": ["flock is issued by a raw system call and cannot be gated itself; the libc calls on both sides of it are"],
+    },
 }
